@@ -125,6 +125,22 @@ class OpInterp(DictInterp):
             return
         if isinstance(s, ast.Expr) and isinstance(s.value, ast.Constant):
             return
+        if isinstance(s, ast.Try):
+            try:
+                self.block(s.body, env)
+            except Raised as r:
+                for h in s.handlers:
+                    names = [] if h.type is None else [(dotted(t0) or "").split(".")[-1] for t0 in (h.type.elts if isinstance(h.type, ast.Tuple) else [h.type])]
+                    if h.type is None or r.kind.split(".")[-1] in names or "Exception" in names or "BaseException" in names:
+                        self.block(h.body, env)
+                        break
+                else:
+                    self.block(s.finalbody, env)
+                    raise
+            else:
+                self.block(s.orelse, env)
+            self.block(s.finalbody, env)
+            return
         return super().stmt(s, env)
 
     # -- tests ----------------------------------------------------------------------------------------
@@ -233,6 +249,9 @@ class OpInterp(DictInterp):
                 if isinstance(o, AObj) and o.flag is not None:
                     return o.flag
                 raise Raised("AttributeError", "reuse_gradient")
+            o = self._try(e.value, env)
+            if isinstance(o, AScalar):
+                raise Raised("AttributeError", "a %s has no attribute %s" % (o.kind, e.attr))
             raise _Unknown("attribute %s" % src(e))
         if isinstance(e, ast.BoolOp) and all(isinstance(self._try(v, env), frozenset) for v in e.values):
             vals = [self.ev(v, env) for v in e.values]
@@ -292,6 +311,13 @@ class OpInterp(DictInterp):
                     args = [self.ev(a, env) for a in e.args]
                     sub = OpInterp(self.repo, r._module, self.depth + 1)
                     return sub.call(r, args)
+            if isinstance(f, ast.Name) and nm in ("float", "int") and len(e.args) == 1 and not e.keywords:
+                v = self.ev(e.args[0], env)
+                if isinstance(v, AScalar) and v.kind in ("int", "float", "bool"):
+                    return AScalar(v.rat, nm)
+                if isinstance(v, AScalar) and v.kind in ("str", "bytes"):
+                    return AScalar(v.rat, nm)          # some strings are numerals: the conversion can succeed
+                raise Raised("TypeError", "%s() of a %s" % (nm, self.kind_of(v)))
             if nm in ("type", "format"):
                 return "<str>"
         return super().ev(e, env)
